@@ -136,8 +136,8 @@ Definition mem_nat (x : nat) (l : list nat) : bool := existsb (Nat.eqb x) l.
 (* ------------------------------------------------------------------ *)
 (* CPU view: cpu_update()                                              *)
 
-Definition thread_state_of (st : state) (t : nat) : tst :=
-  match nth_opt (threads st) t with Some th => t_state th | None => Unknown end.
+Definition dummy_thread : thread := {| t_state := Unknown; t_cpu := None; t_ooc := false; t_raw := [] |}.
+Definition thread_state_of (st : state) (t : nat) : tst := t_state (nth t (threads st) dummy_thread).
 
 Definition running_on (st : state) (c : nat) : list nat :=
   filter (fun t => is_running (thread_state_of st t)) (nth c (cpu_threads st) []).
@@ -424,12 +424,8 @@ Definition flags_of (sx : static) (s : slot) : Z :=
 
 Definition empty_raw : raw := {| r_stk := []; r_val := None |}.
 Definition raw_of (st : state) (t : nat) (k : nat) : raw :=
-  match nth_opt (threads st) t with
-  | Some th => nth k (t_raw th) empty_raw
-  | None => empty_raw
-  end.
+  nth k (t_raw (nth t (threads st) dummy_thread)) empty_raw.
 
-Definition dummy_thread : thread := {| t_state := Unknown; t_cpu := None; t_ooc := false; t_raw := [] |}.
 Definition dummy_info : thread_info := {| ti_tid := 0; ti_pid := 0; ti_loom := 0 |}.
 
 (* what each slot displays: the value of the channel behind it *)
@@ -518,7 +514,7 @@ Definition chan_step (sx : static) (st : state) (who : nat) (k : nat) (a : actio
   : result (state * option (nat * nat)) :=
   match nth_opt (threads st) who, nth_opt (s_chans sx) k with
   | Some th, Some sp =>
-    match raw_apply sp (nth k (t_raw th) {| r_stk := []; r_val := None |}) a v with
+    match raw_apply sp (nth k (t_raw th) empty_raw) a v with
     | Err e => Err e
     | Ok (r', dirty) =>
       Ok (set_thread st who (with_raw th (update (t_raw th) k r')), if dirty then Some (who, k) else None)
